@@ -65,12 +65,15 @@ CLAIMS = {
                 "solutions (wd_extra clause in Comparator / DomainMapping); The._evaluate_ re-exports likewise; Entity / SetOf "
                 "/ QueryObjectDescriptor._evaluate_ proved for bound and unbound selected variables.",
                 note="predicate-form constructor arguments (C13) not included; T1, T3"),
-    'C16': dict(level=P, text="Flatten._apply_mapping_ yields exactly one HashedValue per element of the input value in order "
+    'C16': dict(level='other', text="Flatten._apply_mapping_ yields exactly one HashedValue per element of the input value in order "
                 "(a non-iterable is a singleton): soundness and completeness against MapRel; DomainMapping._evaluate__ keeps "
                 "the child's bindings in every row; QueryObjectDescriptor._evaluate_ / SetOf evaluate all selected "
                 "expressions of a row under one binding, so the flattened element stays correlated with its parent whether "
                 "or not the parent is selected or further conditions exist.",
-                note="iteration protocol of user iterables (A6): element j for 0 <= j < len; T1, T3"),
+                note="level other: a known finding is recorded (result cache on, the default: a logical operator over a condition on "
+                     "the flattened element replays, for the second and later elements of one parent, what it cached for the "
+                     "first - the operator caches are keyed by the parent variable only); the deductive obligations are for the "
+                     "cache-off configuration; iteration protocol of user iterables (A6): element j for 0 <= j < len; T1, T3"),
     'C19': dict(level=P, text="R5/C1 of the interface contract at every value-position call site: DomainMapping (attribute, "
                 "index, call, flatten), Comparator operands, selected expressions in QueryObjectDescriptor/Entity/SetOf "
                 "deliver a row for every binding whatever truthy(value) is; `truthy` is an unconstrained function in the "
@@ -262,10 +265,16 @@ ORACLES = {
             _oracle('histories over a domain that lists an object twice', 100, 1500, kind='history', duplicates=True)],
     'C05': [_oracle('result cache on vs off, first evaluation and re-evaluation', 250, 4000, kind='cache'),
             _oracle('rule trees over two variables, result cache on (reference = cache-off reading)', 150, 3000, kind='rdrtree',
-                    nvars=2, rules=4, depth=2, n=3)],
+                    nvars=2, rules=4, depth=2, n=3),
+            _oracle('conditions on a flattened element, result cache on (reference = cache-off reading)', 150, 3000, kind='flatten_elem')],
     'C16': [_oracle('flatten, parent selected, no condition', 40, 400, kind='flatten', with_cond=False, select_parent=True),
             _oracle('flatten, parent selected, condition', 40, 400, kind='flatten', with_cond=True, select_parent=True),
             _oracle('flatten only, condition', 40, 400, kind='flatten', with_cond=True, select_parent=False, falsy=True),
+            _oracle('conditions on the flattened element itself (and / or / not), result cache off', 200, 3000, kind='flatten_elem',
+                    caching=False),
+            _oracle('conditions on the flattened element itself, element only selected, result cache off', 100, 1500,
+                    kind='flatten_elem', caching=False, select_parent=False),
+            _oracle('conditions on the flattened element itself, result cache on (the default)', 150, 3000, kind='flatten_elem'),
             _oracle('flattened element selected BEFORE its parent, no condition', 60, 600, kind='flatten', with_cond=False,
                     select_parent=True, element_first=True, n=4),
             _oracle('flattened element selected before its parent, condition, falsy elements', 40, 400, kind='flatten', with_cond=True,
